@@ -28,12 +28,30 @@ RULE = ("Three case kinds. (interp, 84 %) geometry (dense 3B2 / NP2.1 / NP2.4 (s
         "1 %) 384-channel 3B2 / NP2.1 recording (bin or cbin) of 3-5 batches of 0.15-0.3 s separated by guard gaps, each batch with "
         "its own fault set; detect_bad_channels_cbin must return, per channel, a most frequent value of the injected "
         "per-batch labels and of the labels detect_bad_channels gives on the harness' own copy of each batch. "
+        "Call forms, re-use, argument memory (drawn case fields, same oracles). interp: labels / x / y positional or as "
+        "keywords; p and kriging_distance_um omitted, both given (also at their default values) or only the non-default one; "
+        "x int64 + y float64 (what neuropixel.trace_header returns), both int64, float64 or float32 (float32: cut-off band 2e-5, "
+        "weight sums within (n+4)*eps32); labels as f8/f4/i8/i4/i1/u1; labels and coordinates contiguous, read-only, or every "
+        "second element of a longer array; data C-ordered, Fortran-ordered (a transposed view) or a strided view; the same "
+        "label / x / y objects for all calls of a case or fresh ones, compared with pristine copies after every call (callers "
+        "go on using them); in half of the cases a call with the same geometry and ANOTHER label vector (all bad, the bad set "
+        "dilated by 1-6 channels, good and bad swapped, rolled) precedes the checked calls. detect: input C-ordered, the "
+        "transposed view of an (ns, nc) array (what Reader[a:b, :nc].T is) or every second sample of a longer array, writable "
+        "or read-only; fs positional or keyword; similarity_threshold / psd_hf_threshold omitted, given at their default values "
+        "(tuple, list, array; 0.02) singly or together, or moved mildly ((-0.4, 0.8) + 0.012, (-0.6, 1.5) + 0.035); in 1/4 of "
+        "the drawn cases a second call: either the same array object again (same labels required), or - before the checked "
+        "call - the same recording with the channels reversed, whose returned labels and features must still be intact "
+        "afterwards. file: the recording given as Path, str or an open Reader (which must return the same samples after the "
+        "call and, in a third of these cases, the same labels from a second call on it); the harness' per-batch copies are "
+        "contiguous arrays or read-only column views of the whole recording. "
         "Non-trivial = interp: a bad channel with another bad channel inside its neighbourhood or at an end of the "
         "array; detect/file: at least one fault at a drawn position. Distinct = distinct case hash.")
 EXHAUSTIVE_NOTE = ("detection: every silent-channel position, every noisy-channel position (a permutation of the positions) "
                    "and every top-block size 0..40 is enumerated on 1 (quick) / 6 (thorough) fixed backgrounds, plus a "
                    "hand-written list of end / block-edge placements; this is one sweep per axis, not the product, and "
-                   "interpolation inputs are sampled")
+                   "interpolation inputs are sampled. The call form (8 keyword forms), the memory layout (C / transposed / "
+                   "strided) and read-only input rotate along the sweep, so each form meets positions spread over the probe, "
+                   "not every position")
 ASSUMPTIONS = [
     "'nearby' = raw decay weight exp(-(d/kriging_distance)^p) >= 0.005 (the anchor's cut-off); a channel whose raw weight is "
     "within 1e-9 relative of 0.005 may or may not contribute",
@@ -49,6 +67,14 @@ ASSUMPTIONS = [
     "accepted as 1 or 3 (the statement gives both answers)",
     "file cases keep the silent channel away from channel 0 and from the top 46 channels so that per-batch expectations "
     "are single-valued; ties between most frequent labels are accepted either way",
+    "non-default detection thresholds are only generated within a third of the measured margins (clear channels: detrended "
+    "similarity within 0.01 of 0, PSD <= 0.14 x 0.02; silent: similarity <= -0.88; noisy: PSD >= 6 x 0.02), where the statement's "
+    "labels cannot depend on them; what a strongly different threshold should do is not part of the statement, so a keyword "
+    "value that is silently ignored is not detectable here; the two known placements are always run at the default values",
+    "interpolate_bad_channels modifies `data` in place by design (all callers use the return value): the data argument is not "
+    "compared with a copy, read-only data is outside the domain; labels / x / y must come back unchanged",
+    "coordinates given as unsigned integers wrap around in x - x[i] on the unchanged tree and lists of Python floats raise: "
+    "neither is produced by neuropixel / spikeglx, both are outside the domain; label vectors given as lists raise as well",
     "the broadband-noise amplitude is at least 45 uV rms (PSD 7 x the AP threshold) and the white background noise at most "
     "6 uV rms (PSD 0.12 x the threshold): thresholds themselves are not part of the statement",
 ]
@@ -914,11 +940,15 @@ def _run_file(case, ctx):
                 probe = slice(win[-1][0], win[-1][0] + 7)
                 before = ctx.call("C15.file.reader", lambda: np.array(sr[probe, :]))
                 got = ctx.call("C15.file", v.detect_bad_channels_cbin, sr, **kw)
-                if got is not ctx.CRASH:
+                # (a numpy memmap whose map was closed must not be touched: that is a segmentation fault, not an exception)
+                closed = bool(getattr(getattr(getattr(sr, "_raw", None), "_mmap", None), "closed", False))
+                if closed:
+                    ctx.fail("C15.file.reader_after_call", "the Reader given to detect_bad_channels_cbin was closed by the call")
+                elif got is not ctx.CRASH:
                     after = ctx.call("C15.file.reader_after_call", lambda: np.array(sr[probe, :]))
                     ctx.check(after is ctx.CRASH or before is ctx.CRASH or (after.shape == before.shape and np.array_equal(after, before)),
                               "C15.file.reader_after_call", "the Reader given to detect_bad_channels_cbin returns other samples after the call")
-                    if inp == "reader_twice" and after is not ctx.CRASH:
+                    if inp == "reader_twice" and nb <= 5 and after is not ctx.CRASH:  # (10 batches: the dearest case as it is)
                         got2 = ctx.call("C15.file", v.detect_bad_channels_cbin, sr, **kw)
             finally:
                 ctx.call("C15.file.reader", sr.close)
